@@ -5,7 +5,7 @@
 // outputs of pre_order / to_root / depth / level / child_position / map / == / !=.
 // It contains no expected values: spec/TreeTrace.tla (TLC) is the judge.
 //
-//   c09_tree record OUT seed histories maxlen
+//   c09_tree record OUT seed histories maxlen [assign-from-descendant 0|1]
 //   c09_tree replay SCRIPTS.ndjson OUT      (one JSON array of op records per line)
 #include <common/vjson.hpp>
 
@@ -38,6 +38,7 @@ using ltree = fcppt::container::tree::object<long>;
 constexpr int NS = 4;
 constexpr std::size_t max_nodes = 14; // the generator does not grow the forest beyond this
 std::optional<tree> slots[NS + 1];
+bool drive_assign_from_descendant = true; // record mode, 6th argument 0 switches it off
 
 struct Op
 {
@@ -450,6 +451,9 @@ bool gen(vj::Rng &r, Op &op)
     bool const same_slot = a.slot == b.slot;
     bool const related = same_slot && (is_prefix(a.path, b.path) || is_prefix(b.path, a.path));
     bool const b_above_a = same_slot && is_prefix(b.path, a.path);
+    // the source of an assignment may be a proper descendant of the destination ("replace a node
+    // by one of its children"); it may not be the destination itself or one of its ancestors
+    bool const assignable = !related || (drive_assign_from_descendant && !b_above_a);
     auto with_b = [&]() { op.bs = b.slot; op.bp = b.path; };
     switch (which)
     {
@@ -494,10 +498,10 @@ bool gen(vj::Rng &r, Op &op)
       if (related) continue;
       op.op = r.coin() ? "swap" : "swap_free"; with_b(); return true;
     case 33: case 34: case 35: case 36:
-      if (related || total + subtree_size(*b.ptr) > max_nodes + subtree_size(*a.ptr)) continue;
+      if (!assignable || total + subtree_size(*b.ptr) > max_nodes + subtree_size(*a.ptr)) continue;
       op.op = "copy_assign"; with_b(); return true;
     case 37: case 38: case 39: case 40:
-      if (related) continue;
+      if (!assignable) continue;
       op.op = "move_assign"; with_b(); return true;
     case 41: case 42: case 43:
       op.op = "set_value"; return true;
@@ -544,6 +548,7 @@ int main(int argc, char **argv)
     std::uint64_t const seed = std::strtoull(argv[3], nullptr, 10);
     long const hist = std::strtol(argv[4], nullptr, 10);
     long const maxlen = std::strtol(argv[5], nullptr, 10);
+    if (argc >= 7) drive_assign_from_descendant = std::strtol(argv[6], nullptr, 10) != 0;
     for (long h = 0; h < hist; ++h)
     {
       vj::Rng r(seed * 1000003ULL + static_cast<std::uint64_t>(h));
